@@ -30,7 +30,12 @@ RULE = ('A case is (profile of the 14, user capabilities, server capability list
         'remove then add again, add the other URN form, remove both forms, remove base:1.0, unrelated add/remove, random; nc_params additions. '
         'Judged: connect succeeds, session id and ALL server capabilities are reported, the hello on the wire lists what the manager reports '
         'and what the history left, later frames chunked iff the hello ON THE WIRE and the server hello advertise base:1.1; the frames are '
-        'compared with Negotiate.run on the client list sent.')
+        'compared with Negotiate.run on the client list sent. What follows the server hello (round 4): 0-3 white-space octets after its '
+        'delimiter (LF, CRLF, blanks, tabs; in the same send as the delimiter or in a send of their own 1-20 ms later) x 1.0-only / 1.1 servers '
+        'x SSH/TLS/Unix; the peer answers every completely received request in the negotiated framing (chunked replies in 1-5 chunks, one cut '
+        'inside a character; end-of-message replies followed by the same white space); the client registers a SessionListener and sends request '
+        'k+1 after reply k. Judged: every reply is delivered once, after its request, with its message-id and text; no error reaches the '
+        'listeners; the session stays connected.')
 ASSUMES = ['the transport delivers the server octets in order; threading.Event.wait(timeout) returns no later than the deadline plus scheduling latency',
            'a profile is one of the 14 modules of ncclient/devices; nc_params capabilities are strings']
 TRUSTED = ['tools/harness/hello_real.py: scripted peer behind the real SSH/TLS/Unix transports (servers of hello_deadline.py); OpenSSL puts one '
@@ -506,9 +511,12 @@ def run_real(ctx, corpus, rounds):
         ctx.hist('real_hello_sends', 'one' if obs.get('n_pieces') == 1 else 'several')
         ctx.hist('real_history', 'none' if not case.get('edits') else ('touches base:1.1' if any(advertises_base(u, '1.1') for _, u in case['edits']) else 'other'))
         ctx.hist('real_result', obs['result'] + (' (unconfirmed)' if obs.get('unconfirmed') else ''))
+        ctx.hist('real_after_hello', ('ws x%d' % len(case['ws']) + (' later send' if case.get('ws_gap_ms') else '') if case.get('ws') else 'nothing') + ('/answered' if case.get('answer') else ''))
+        ctx.hist('real_replies_delivered', '%d of %d' % (len(obs.get('delivered', [])), len(obs.get('later', [])) if case.get('answer') else 0))
         for what, exp, act in probs:
-            ctx.fail(case, what, sig=None, expected=exp, actual=act)
-        if i in mouts and not obs.get('unconfirmed'):
+            ctx.fail(case, what, sig=HR.sig_of(case, obs, what), expected=exp, actual=act)
+        known = bool(probs) and all(HR.sig_of(case, obs, p[0]) for p in probs)      # the open finding: the session died, nothing to tie
+        if i in mouts and not obs.get('unconfirmed') and not known:
             mo, io = HR.model_out(mouts[i]), HR.impl_out(case, obs)
             if mo != io:
                 ctx.disagree(case, mo[:3] + [len(mo[3] or [])], io[:3] + [len(io[3])], 'Negotiate.run on the client list SENT vs the frames / report of the real transport',
@@ -681,6 +689,7 @@ def search(ctx, seeds):
             return dict(case=case, what=what, sig=None, expected=exp, actual=act)
     from harness import hello_real as HR
     for case, obs, probs in HR.check_cases([c for c in seeds if c.get('kind') == 'realhello'] + HR.gen_cases(rng, 'quick', DEFAULT_LIST)):
+        probs = [p for p in probs if HR.sig_of(case, obs, p[0]) is None]      # the open finding is reported by run_real under its sig
         if probs:
             what, exp, act = probs[0]
             return dict(case=case, what=what, sig=None, expected=exp, actual=act)
@@ -756,6 +765,9 @@ def replay(doc):
         print('observed : result=%s %r after %.2fs; session-id=%r; %s server capabilities reported; manager reports client capabilities %r'
               % (obs['result'], obs.get('message'), obs['elapsed'], obs.get('sid'), None if obs.get('server_caps') is None else len(obs['server_caps']), obs.get('client_reported')))
         print('wire     : hello lists %r; then %r' % (None if first is None else HR.hello_caps_of(first), rest[:80]))
+        print('after    : %s; the peer answered %d request(s)%s; delivered to the listener %r; errors %r; connected=%r'
+              % (HR.describe_after(case), obs.get('answered', 0), (' with ' + repr(HR.reply_frame(case, 1, b'\n##\n' in rest)[:60])) if case.get('answer') else '',
+                 [(d[0], d[2]) for d in obs.get('delivered', [])], obs.get('errors'), obs.get('connected')))
         for what, exp, act in probs:
             print('FAILS    :', what); print('expected :', exp); print('actual   :', act)
         if not probs: print('holds')
